@@ -20,8 +20,10 @@ namespace fs = std::filesystem;
 using tulz::Path;
 
 static const char *NAMES[] = {"a", "b", "c", "dir with space", "x.y", ".hidden", "\xc3\xbcn\xc3\xaf", "file.tar.gz",
-                              "\xff\xfe\x01", "zz", "a.b.c", "-dash", "0"};
-static const int NNAMES = 13;
+                              "\xff\xfe\x01", "zz", "a.b.c", "-dash", "0", "..data", "...",
+                              "LLLLLLLLLLLLLLLLLLLLLLLLLLLLLLLLLLLLLLLLLLLLLLLLLLLLLLLLLLLLLLLLLLLLLLLLLLLLLLLLLLLLLLLLLLLLLLLLLLLLLLLLLLLLLLLLLLLLLLLLLLLLLLLLLLLLLLLLLLLLLLLLLLLLLLLLLLLLLLLL",
+                              "MMMMMMMMMMMMMMMMMMMMMMMMMMMMMMMMMMMMMMMMMMMMMMMMMMMMMMMMMMMMMMMMMMMMMMMMMMMMMMMMMMMMMMMMMMMMMMMMMMMMMMMMMMMMMMMMMMMMMMMMMMMMMMMMMMMMMMMMMMMMMMMMMMMMMMMMMMMMMMMMMMMMMMMMMMMMMMMMMMMMMMMMMMMMMM"};
+static const int NNAMES = 17;
 static int counter = 0;
 
 static std::string str(const Line &v) { std::string s; for (auto c : v) s.push_back((char) (unsigned char) c); return s; }
@@ -149,6 +151,23 @@ int main() {
                 out = {during == before ? 1 : 0, after == before ? 1 : 0};
                 if (after != before) oracle_fail("C18: DirectoryVisitor did not restore the working directory");
                 if (fs::is_directory(p) && fs::path(during) != fs::path(p)) oracle_fail("C18: DirectoryVisitor did not enter the directory");
+                break;
+            }
+            case 54: {
+                // nested visitors: 54 n p... q... : enter p (n components), inside it visit q and leave, then leave p
+                if (l.size() < 2 || l[1] < 0 || (size_t) l[1] + 2 > l.size()) { ok = false; break; }
+                Line lp(l.begin() + 2, l.begin() + 2 + l[1]), lq(l.begin() + 2 + l[1], l.end());
+                std::string p = pathOf(lp, 0, ok), q = pathOf(lq, 0, ok); if (!ok) break;
+                std::string before = fs::current_path().string(), in1, afterInner;
+                {
+                    tulz::DirectoryVisitor v1{Path(p)}; in1 = fs::current_path().string();
+                    { tulz::DirectoryVisitor v2{Path(q)}; }
+                    afterInner = fs::current_path().string();
+                }
+                std::string after = fs::current_path().string();
+                out = {in1 == before ? 1 : 0, afterInner == in1 ? 1 : 0, after == before ? 1 : 0};
+                if (afterInner != in1) oracle_fail("C18: an inner DirectoryVisitor did not restore the working directory it found (" + std::to_string(in1.size()) + " bytes long)");
+                if (after != before) oracle_fail("C18: DirectoryVisitor did not restore the working directory");
                 break;
             }
             default: ok = false;
